@@ -6,6 +6,7 @@ use apollo_compiler::executable::Field;
 use apollo_compiler::executable::Selection;
 use apollo_compiler::executable::SelectionSet;
 use apollo_compiler::schema::ExtendedType;
+use apollo_compiler::schema::Type;
 use apollo_compiler::validation::Valid;
 use apollo_compiler::ExecutableDocument;
 use apollo_compiler::Name;
@@ -328,25 +329,31 @@ impl<'a, 'doc, 'schema, R: RandomProvider> ResponseBuilder<'a, 'doc, 'schema, R>
             };
 
             if is_list {
-                self.repeated_selection_set(&full_selection_set)
+                self.repeated_selection_set(&full_selection_set, meta_field.ty().item_type())
             } else {
                 self.selection_set(&full_selection_set)
             }
         } else if is_list {
-            self.repeated_leaf_field(meta_field.ty().inner_named_type())
+            self.repeated_leaf_field(meta_field.ty().item_type())
         } else {
             self.leaf_field(meta_field.ty().inner_named_type())
         }
     }
 
+    /// One array level per list level of the field type: `item_ty` is the type of the items
     fn repeated_selection_set(
         &mut self,
         selection_set: &SelectionSet,
+        item_ty: &Type,
     ) -> Result<Value, ResponseError> {
         let num_values = self.arbitrary_len()?;
         let mut values = Vec::with_capacity(num_values);
         for _ in 0..num_values {
-            values.push(self.selection_set(selection_set)?);
+            values.push(if item_ty.is_list() {
+                self.repeated_selection_set(selection_set, item_ty.item_type())?
+            } else {
+                self.selection_set(selection_set)?
+            });
         }
         Ok(Value::Array(values))
     }
@@ -463,11 +470,16 @@ impl<'a, 'doc, 'schema, R: RandomProvider> ResponseBuilder<'a, 'doc, 'schema, R>
         }
     }
 
-    fn repeated_leaf_field(&mut self, type_name: &Name) -> Result<Value, ResponseError> {
+    /// One array level per list level of the field type: `item_ty` is the type of the items
+    fn repeated_leaf_field(&mut self, item_ty: &Type) -> Result<Value, ResponseError> {
         let num_values = self.arbitrary_len()?;
         let mut values = Vec::with_capacity(num_values);
         for _ in 0..num_values {
-            values.push(self.leaf_field(type_name)?);
+            values.push(if item_ty.is_list() {
+                self.repeated_leaf_field(item_ty.item_type())?
+            } else {
+                self.leaf_field(item_ty.inner_named_type())?
+            });
         }
         Ok(Value::Array(values))
     }
